@@ -203,7 +203,44 @@ mod error_idioms {
         let a: (fn(GenericBuilderError) -> Box<dyn std::error::Error + Send + Sync>, fn(GenericBuilderError) -> std::io::Error, fn(GenericBuilderError) -> String) = (boxed, io, through_thread);
         let b: (fn(GenericParserError) -> Box<dyn std::error::Error + Send + Sync>, fn(GenericParserError) -> std::io::Error, fn(GenericParserError) -> String) = (boxed, io, through_thread);
         let c: (fn(PasetoClaimError) -> Box<dyn std::error::Error + Send + Sync>, fn(PasetoClaimError) -> std::io::Error, fn(PasetoClaimError) -> String) = (boxed, io, through_thread);
-        std::mem::size_of_val(&a) + std::mem::size_of_val(&b) + std::mem::size_of_val(&c)
+        std::mem::size_of_val(&a) + std::mem::size_of_val(&b) + std::mem::size_of_val(&c) + status_of_parse_error as usize % 2 + status_of_build_error as usize % 2 + status_of_claim_error as usize % 2
+    }
+    // exhaustive matches without a catch-all arm (mapping an error to an HTTP status, a metric label ...): the
+    // layer's own error enums have the same variants in every feature configuration
+    #[cfg(any(feature = "generic", feature = "crate_default"))]
+    fn status_of_parse_error(e: &rusty_paseto::generic::GenericParserError) -> u16 {
+        use rusty_paseto::generic::GenericParserError as E;
+        match e {
+            E::ClaimError { .. } => 403,
+            E::CipherError { .. } => 401,
+            E::PayloadJsonError { .. } => 400,
+        }
+    }
+    #[cfg(any(feature = "generic", feature = "crate_default"))]
+    fn status_of_build_error(e: &rusty_paseto::generic::GenericBuilderError) -> u16 {
+        use rusty_paseto::generic::GenericBuilderError as E;
+        match e {
+            E::ClaimError { .. } => 422,
+            E::BadEmailAddress(_) => 422,
+            E::DuplicateTopLevelPayloadClaim(_) => 409,
+            E::CipherError { .. } => 500,
+            E::PayloadJsonError { .. } => 500,
+        }
+    }
+    #[cfg(any(feature = "generic", feature = "crate_default"))]
+    fn status_of_claim_error(e: &rusty_paseto::generic::PasetoClaimError) -> u16 {
+        use rusty_paseto::generic::PasetoClaimError as E;
+        match e {
+            E::Expired => 401,
+            E::UseBeforeAvailable(_) => 401,
+            E::RFC3339Date(_) => 400,
+            E::Missing(_) => 400,
+            E::Unexpected(_) => 400,
+            E::CustomValidation(_) => 403,
+            E::Invalid(_, _, _) => 403,
+            E::Reserved(_) => 500,
+            E::DuplicateTopLevelPayloadClaim(_) => 500,
+        }
     }
 }
 
